@@ -45,7 +45,7 @@ def alphabet():
     A = []
     for s in (0, 1):
         for k in (0, 1): A.append(("gen", s, k)); A.append(("gen_counter", s, k))
-        A += [("gen_zero_rand", s, 0), ("gen_bad_seckey", s, 0), ("gen_null_pubnonce", s, 0), ("gen_bad_cache", s, 0)]
+        A += [("gen_zero_rand", s, 0), ("gen_bad_seckey", s, 0), ("gen_null_pubnonce", s, 0), ("gen_bad_cache", s, 0), ("gen_counter_bad_keypair", s, 0)]
         for k in (0, 1, 2): A.append(("sign", s, k))
         A += [("sign_null_out", s, 0), ("sign_bad_cache", s, 0), ("sign_bad_session", s, 0), ("sign_null_keypair", s, 0)]
     A += [("copy", 0, 1), ("copy", 1, 0)]
@@ -63,7 +63,7 @@ def step(W, objs, op, hist):
     def fail(key, extra=""):
         ctx.check(False, "history:%s:%s" % (name, key), det + " " + extra, config); return False
     ctx.ev("history_step", name + (":live" if o.live else ":zero"), True, tuple(hist), op)
-    if name in ("gen", "gen_counter", "gen_zero_rand", "gen_bad_seckey", "gen_null_pubnonce", "gen_bad_cache"):
+    if name in ("gen", "gen_counter", "gen_zero_rand", "gen_bad_seckey", "gen_null_pubnonce", "gen_bad_cache", "gen_counter_bad_keypair"):
         W.counter += 1
         rand = sha(b"c13" + W.counter.to_bytes(8, 'big') + bytes([ctx.shard]))
         sk = b32(W.d[k]); cache = W.kac; want_pn = 1; ill = 0
@@ -71,7 +71,14 @@ def step(W, objs, op, hist):
         if name == "gen_bad_seckey": sk = b32(rand[0] % 2 * n)        # 0 or n
         if name == "gen_null_pubnonce": want_pn = 0; ill = 2
         if name == "gen_bad_cache": cache = W.bad_kac; ill = 2
-        if name == "gen_counter":
+        if name == "gen_counter_bad_keypair":
+            # a keypair object whose public half is intact but whose secret half is not a valid scalar (0, n, n+1, 2^256-1): the
+            # counter entry point must fail and leave the secret nonce zeroed like every other failure
+            cnt = W.counter * 2**31 + ctx.shard
+            bad = W.kp[k][:0] + b32((0, n, n + 1, 2**256 - 1)[W.counter % 4]) + W.kp[k][32:]
+            r = ctx.call("musig_nonce_gen_counter", o.bytes, 1, cnt, bad, W.msg, cache, None, config=config, ill=1)
+            ks = None
+        elif name == "gen_counter":
             cnt = W.counter * 2**31 + ctx.shard
             r = ctx.call("musig_nonce_gen_counter", o.bytes, 1, cnt, W.kp[k], W.msg, cache, None, config=config, ill=ill)
             ks = musig.nonce_gen_counter(cnt, b32(W.d[k]), W.pk33[k], xbytes(W.K.Q), W.msg, None)
